@@ -192,11 +192,18 @@ def run_vector(ctx, v, stats):
         cls = kind
     vec = dict(v, kind_='vector')
     ok = lambda clause, cond, d='': ctx.verdict(clause, bool(cond), cls=cls, detail=d or detail, vector=vec)
+    tie = False
     if kind == 'npoint':
-        ok('nonphysical_rejected_iff', (outcome == 'invalid') == (v['st'] == 'invalid') or outcome == 'error',
-           'nodes T %r logP %r limit %r: spec %s, implementation %s' % (v['tn'], v['pn'], v['lim'], v['st'], outcome))
-    if v['st'] == 'invalid':
-        return
+        if v['strict']:
+            ok('nonphysical_rejected', outcome == 'invalid',
+               'nodes T %r logP %r limit %r must be rejected, implementation: %s %s' % (v['tn'], v['pn'], v['lim'], outcome, detail))
+            return
+        tie = v['st'] == 'invalid'       # equal nodes / slope exactly at the limit: either outcome is accepted
+        if not tie:
+            ok('physical_not_rejected', outcome != 'invalid',
+               'nodes T %r logP %r limit %r are valid, implementation: %s %s' % (v['tn'], v['pn'], v['lim'], outcome, detail))
+        if outcome == 'invalid':
+            return
     if not ok('one_value_per_layer', outcome == 'ok' and prof is not None and prof.shape == (n,),
               'n=%d sw=%s: %s %s' % (n, v['sw'], outcome, detail)):
         return
@@ -206,6 +213,8 @@ def run_vector(ctx, v, stats):
        'controls [%r, %r] profile %r' % (lo, hi, prof))
     if v['lo'] == v['hi']:
         ok('constant_when_controls_equal', np.all(np.abs(prof - lo) <= 1e-12 * lo), 'profile %r' % prof)
+    if tie:
+        return
     exp = np.array([TS * float(frac(c)) for c in v['prof']])
     same = np.all(np.abs(prof - exp) <= 1e-11 * np.abs(exp))
     if kind == 'array' and v['pmode'] == 'none' and not same:
@@ -304,17 +313,19 @@ def guillot_event(r):
     cat = guillot_category(p)
     kw = dict(T_irr=p['tirr'], kappa_irr=p['kir'], kappa_v1=p['kv1'], kappa_v2=p['kv2'], alpha=p['alpha'], T_int=p['tint'])
     outcome, prof, detail = evaluate('guillot', kw, n, P)
-    e = dict(ev='guillot', n=n, cat=cat, outcome=outcome if outcome != 'error' else 'bad', len=-1, nonfinite=0, nonpos=0,
+    e = dict(ev='guillot', n=n, cat=cat, outcome=outcome if outcome != 'error' else 'bad', how=outcome, len=-1, nonfinite=0, nonpos=0,
              closedbad=0, assembled=False, S=SQ, y=[], a=[], w=0, e1=[], e2=[], an=0, ad=1, qtol=0)
     if outcome != 'ok':
         return e, '%s %s' % (outcome, detail)
     if prof.ndim != 1:
         e['outcome'] = 'bad'
+        e['how'] = 'not-a-vector'
         return e, 'not a vector'
     fin = np.isfinite(prof)
     e.update(len=int(prof.shape[0]), nonfinite=int((~fin).sum()), nonpos=int((prof[fin] <= 0).sum()))
     if e['nonfinite'] or e['nonpos']:
         e['outcome'] = 'bad'
+        e['how'] = 'nan-or-nonpositive'
         return e, 'profile %r' % prof[:6]
     detail = 'T[0]=%r T[-1]=%r' % (float(prof[0]), float(prof[-1]))
     if cat == 'physical' and prof.shape == (n,):
@@ -467,7 +478,7 @@ def event_cls(r, e):
             why.append('alpha-outside-0-1')
         if p['tirr'] == 0 and p['tint'] == 0:
             why.append('zero-temperatures')
-    return 'guillot:%s%s:%s' % (e['cat'], ':' + '+'.join(why) if why else '', e['outcome'])
+    return 'guillot:%s%s:%s' % (e['cat'], ':' + '+'.join(why) if why else '', e['how'] if e['outcome'] == 'bad' else e['outcome'])
 
 
 def validate(ctx, recipes, label, canary=True):
